@@ -42,6 +42,11 @@ def menu():
         ('seg-S-2', T.enc_segment(2, 3, b'\x31\x32', [tl(3)]), True),
         ('seg-E-1', T.enc_segment(1, 3, b'\x33'), True),
         ('seg-SE-noext', T.enc_segment(3, 4, b'\x41'), True),
+        # reserved bits of the flags octet are set (a later protocol revision may use them): they are ignored
+        ('seg-S-2-reserved-bits', T.enc_segment(0x82, 6, b'\x51\x52', [tl(3)]), True),
+        ('seg-E-1-reserved-bits', T.enc_segment(0x41, 6, b'\x53'), True),
+        # the extension list is exactly one item of a type nobody knows, not critical, with a value
+        ('seg-SE-one-unknown-ext', T.enc_segment(3, 7, b'\x61', [unk_ext]), True),
         ('ack-unknown', T.enc_ack(1, 9, 5), True),
         ('refuse-unknown', T.enc_refuse(2, 9), True),
         ('keepalive', T.enc_keepalive(), False),
@@ -56,6 +61,7 @@ def sess_inits():
         ('init-n9', T.enc_sess_init(0, 4, 100, b'dtn://p/x')),
         ('init-n0', T.enc_sess_init(3, 2 ** 64 - 1, 2 ** 64 - 1, b'')),
         ('init-n1-ext', T.enc_sess_init(0, 4, 100, b'z', [(0, 0x7777, b'\xaa'), (0, 0x7778, b'')])),
+        ('init-one-unknown-ext', T.enc_sess_init(0, 4, 100, b'y', [(0, 0x7777, b'\xaa')])),
     ]
 
 
